@@ -9,9 +9,13 @@ from . import regexgram as G
 from .base import BaseProp
 from .base import simpler_policies as _simpler_policies
 from .core import derive, digest, fast_digest
+from .known import classify
 from .world import DrawCapExceeded, Schedule
 
+DIGIT_KNOBS = [None, None, None, None, "123456789", "01"]
+WORD_KNOBS = [None, None, None, None, string.ascii_lowercase, "ab_"]
 LETTER_KNOBS = [
+    string.printable,                      # contains \n \r \t \x0b \x0c
     None,                                  # generator default
     None,
     string.ascii_lowercase,
@@ -67,12 +71,15 @@ class Prop(BaseProp):
         letters = r.choice(LETTER_KNOBS)
         max_repeat = r.choice(MAX_REPEAT_KNOBS)
         route = r.choice(("regexgen", "regexgen", "generator", "fake"))
+        digits = r.choice(DIGIT_KNOBS)
+        word = r.choice(WORD_KNOBS)
         if route == "fake":
-            letters, max_repeat = None, 32   # the module-level generator has default knobs
+            letters, max_repeat, digits, word = None, 32, None, None   # the module-level generator has default knobs
         gcfg = G.Cfg(r, letters=letters or G.ASCII_LETTERS_DEFAULT, max_repeat=max_repeat,
                      depth=r.choice((1, 2, 3, 4)), budget=r.choice((16, 64, 64, 256, 256, 1024, 4096)),
                      p_unsup=r.choice((0.0, 0.0, 0.25, 1.0)), p_neg=r.choice((0.0, 0.25, 0.6)),
                      size=r.choice((1, 2, 3, 5)))
+        gcfg.p_exhaust = r.choice((0.0, 0.0, 0.5))
         for _ in range(10):
             ast = G.gen_pattern(gcfg)
             pat = G.render(ast)
@@ -89,6 +96,7 @@ class Prop(BaseProp):
                 self.probes["unsupported_pattern_regenerated_simpler"] += 1
                 continue
             return {"ast": ast, "pattern": pat, "letters": letters, "max_repeat": max_repeat,
+                    "digits": digits, "word": word,
                     "route": route, "seed": derive(*labels, "sched"),
                     "m": cfg["m_seeded"], "flip_n": cfg["flip_n"]}
         return None
@@ -100,7 +108,11 @@ class Prop(BaseProp):
         route = case["route"]
         if route == "fake":
             return d["fake"](d["schema"].str.regex(pat))
-        alphabet = {"letters": case["letters"]} if case["letters"] is not None else None
+        alphabet = {}
+        for name in ("letters", "digits", "word"):
+            if case.get(name) is not None:
+                alphabet[name] = case[name]
+        alphabet = alphabet or None
         rnd = d["Random"]()
         rg = d["RegexGenerator"](rnd, alphabet=alphabet, max_repeat=case["max_repeat"])
         if route == "regexgen":
@@ -182,10 +194,7 @@ class Prop(BaseProp):
                                "generated": s, "draws": draws})
             if oc.startswith("ok"):
                 return draws
-            sig = {"property": "C09", "outcome": oc, "supported": "unsup" not in fs}
-            violations.append(self.make_violation(
-                "C09", sig, case, schedule, detail,
-                {"features": fs, "event_digest": digests[-1]}))
+            violations.append(self._mk(case, schedule, oc, detail, s, digests[-1]))
             return draws
 
         self.schedule_plan(run, case["seed"], case["m"], case["flip_n"])
@@ -229,13 +238,37 @@ class Prop(BaseProp):
         oc, detail, draws, s = self.execute(case, sched)
         if oc.startswith("ok"):
             return None
-        sig = {"property": "C09", "outcome": oc, "supported": "unsup" not in fs}
         neg = "class_neg" in fs
-        v = self.make_violation("C09", sig, case, sched, detail,
-                                {"features": fs,
-                                 "event_digest": fast_digest([self.world.log, oc, None if neg else s])})
+        v = self._mk(case, sched, oc, detail, s, fast_digest([self.world.log, oc, None if neg else s]))
         if sig_id is not None and v["sig_id"] != sig_id:
             return None
+        if getattr(self, "_kf_target", "__any__") != "__any__" and v["kf"] != self._kf_target:
+            return None
+        return v
+
+    def minimise(self, v, budget_s=15, max_exec=2000):
+        self._kf_target = v.get("kf")
+        try:
+            return super().minimise(v, budget_s, max_exec)
+        finally:
+            self._kf_target = "__any__"
+
+    def _mk(self, case, schedule, oc, detail, s, event_digest):
+        fs = list(G.features(case["ast"]))
+        letters = case["letters"] or G.ASCII_LETTERS_DEFAULT
+        if case.get("digits") is not None:
+            fs.append("knob:digits")
+        if case.get("word") is not None:
+            fs.append("knob:word")
+        if "\n" in letters:
+            fs.append("knob:letters_has_newline")
+        if G.negclass_exhausts(case["ast"], letters):
+            fs.append("negclass_exhausts_letters")
+        if isinstance(s, str) and "\n" in s:
+            fs.append("generated_has_newline")
+        sig = {"property": "C09", "outcome": oc, "supported": "unsup" not in fs}
+        v = self.make_violation("C09", sig, case, schedule, detail, {"features": sorted(fs), "event_digest": event_digest})
+        v["kf"] = classify(v, self.args.get("known", []))
         return v
 
     def shrink_candidates(self, v):
@@ -253,6 +286,10 @@ class Prop(BaseProp):
             yield dict(case, route="regexgen"), sched
         if case["letters"] is not None:
             yield dict(case, letters=None), sched
+        if case.get("digits") is not None:
+            yield dict(case, digits=None), sched
+        if case.get("word") is not None:
+            yield dict(case, word=None), sched
         if case["max_repeat"] != 32:
             yield dict(case, max_repeat=32), sched
         # 3. pattern surgery
